@@ -59,6 +59,9 @@ MonStep(m, ev) ==
             ELSE IF d <= 0 THEN Fail(m3, "C13.retry-without-delay")
             ELSE IF d > CapMs + SlackMs THEN Fail(m3, "C13.retry-delay-above-cap")
             ELSE IF d + SlackMs < m3.prevDelay THEN Fail(m3, "C13.retry-delay-shrinks")
+            \* "growing": below the cap every pause is longer than the one before it
+            ELSE IF m3.prevDelay > 0 /\ d < CapMs - SlackMs /\ d <= m3.prevDelay + SlackMs
+                 THEN Fail(m3, "C13.retry-delay-does-not-grow")
             ELSE [m3 EXCEPT !.prevDelay = d, !.lastRefuseT = -1]
     [] ev.e = "OpenResult" ->
          IF ev.r = "refuse" THEN [m1 EXCEPT !.lastRefuseT = ev.t]
